@@ -6,9 +6,9 @@ cd $d || exit 2
 git stash -q 2>/dev/null; git checkout -q -- . 2>/dev/null; git apply patch.diff || { echo "$id: patch does not apply"; exit 2; }
 cmake -G Ninja -S $d -B $d/_build -DCMAKE_BUILD_TYPE=RelWithDebInfo >/dev/null 2>&1 && cmake --build $d/_build >/dev/null 2>&1 || { echo "$id: build failed"; exit 2; }
 tests=$(ctest --test-dir $d/_build -j8 --timeout 900 2>&1 | grep "tests passed")
-sh $d/demo.sh $d/_build >/dev/null 2>&1; with=$?
+bash $d/demo.sh $d/_build >/dev/null 2>&1; with=$?
 git apply -R patch.diff; cmake --build $d/_build >/dev/null 2>&1
-sh $d/demo.sh $d/_build >/dev/null 2>&1; without=$?
+bash $d/demo.sh $d/_build >/dev/null 2>&1; without=$?
 echo "$id: tests[$tests] demo_with_change=$with demo_without=$without"
 if [ "$with" != 0 ] && [ "$without" = 0 ] && echo "$tests" | grep -q "100% tests passed"; then
   mkdir -p /verif/seeded/$name && cp patch.diff demo.sh /verif/seeded/$name/ && cp NOTES.md /verif/seeded/$name/ 2>/dev/null
